@@ -565,10 +565,23 @@ class CCITTFaxDecoder(CCITTG4Parser):
         self._buf += arr.tobytes()
 
 
+# No fax or scanner format comes near this width; a row buffer is allocated
+# for every line, so an absurd /Columns must not be taken at its word.
+MAX_COLUMNS = 1 << 20
+
+
 def ccittfaxdecode(data: bytes, params: Dict[str, object]) -> bytes:
+    if not isinstance(params, dict):
+        raise PDFValueError(f"Invalid decode parameters for CCITTFaxDecode: {params!r}")
     K = params.get("K")
     if K == -1:
         cols = cast(int, params.get("Columns", 1728))
+        if (
+            not isinstance(cols, int)
+            or isinstance(cols, bool)
+            or not 1 <= cols <= MAX_COLUMNS
+        ):
+            raise PDFValueError(f"Invalid /Columns for CCITTFaxDecode: {cols!r}")
         bytealign = cast(bool, params.get("EncodedByteAlign"))
         reversed = cast(bool, params.get("BlackIs1"))
         parser = CCITTFaxDecoder(cols, bytealign=bytealign, reversed=reversed)
